@@ -32,6 +32,11 @@ def main():
             det = d["detail"]
             chk.violation("%s|%s|%s|%s" % (d["what"], det.get("fen"), det.get("a"), det.get("c")), d["what"], d,
                           replay={"kind": "keypairs", "events": kf, "line": d.get("at")})
+    # supplementary, unbounded: TLAPS proves the set algebra the key model rests on (toggle twice, commutation, e.p. swap)
+    pr = vlib.tlaps("KeyAlgebraProof", chk.outdir)
+    chk.cov["tlaps_key_algebra_obligations"] = {"proved": pr[0], "total": pr[1]} if pr else "not-run"
+    if pr and pr[0] != pr[1]:
+        raise vlib.ToolError("TLAPS no longer proves KeyAlgebraProof: %s" % (pr,))
     chk.cov["keypair_positions"] = kp_pos
     chk.cov["keypair_variants"] = kp_var
     chk.cov.update({
